@@ -18,8 +18,8 @@
    CovMat one is the expression CovMat::operator[] computes (oprow; the extracted operator[] itself is tied to the same
    recurrence by unit matvec_index, lemmas CovMat.row_first_is_0 / row_step_is_rowlength / row_end_is_size).
 
-   LEMMA FUNCTIONS: a nonlinear fact enters a CBMC check only as the contract of a body-less `cvp_lemma_*` function
-   (call replaced by its contract: precondition ASSERTED, conclusion assumed).  GV_MACHINE_BOUND(...) marks the stated
+   LEMMAS: a nonlinear fact enters a CBMC check only as an instance of a `cvp_lemma_*` statement (hypothesis ASSERTED,
+   conclusion assumed, on the program's own variables; see CVP_USE_* below).  GV_MACHINE_BOUND(...) marks the stated
    dimension bound under which the lemma's own integer expressions do not overflow (CBMC overflow obligations at every
    use); z3 proves the lemma over mathematical integers WITHOUT it.                                                  */
 #ifndef CVP_SPEC_H
@@ -55,78 +55,100 @@ extern int cvp_tab_d, cvp_tab_b;
 #define CVP_TRI(i) CVP_TRI_CLOSED(i)
 #endif
 
+/* Every lemma is stated once, as a pair of macros <L>_HYP / <L>_CONCL, and used in two ways from the same text:
+     - as the body-less declaration `void cvp_lemma_<l>(int ...) requires(HYP) ensures(CONCL);` which lemmas.py proves with z3;
+     - inline in the CBMC checks through CVP_USE_<L>(...) = GV_INST(bound && HYP, CONCL) on the program's own variables,
+       i.e. assert the hypothesis, assume the conclusion -- exactly what replacing a call of the lemma function by its
+       contract does, without dfcc's per-call write-set machinery (measured here: dfcc duplicates every loop body for
+       its base case, so an instantiation inside a loop nest of depth 3 is instrumented 8 times). */
 #pragma CPROVER check push
 #pragma CPROVER check enable "signed-overflow"
 #pragma CPROVER check enable "div-by-zero"
 
 /* ---- CovMat(d,b), 0 <= b < d ---------------------------------------------------------------------------------- */
+#define CVP_COV_DOM(d, b) (0 <= (b) && (b) < (d) && CVP_TAB_FOR(d, b))
+
+#define CVP_L_FIRST_HYP(d, b) CVP_COV_DOM(d, b)
+#define CVP_L_FIRST_CONCL(d, b) (CVP_OFF(d, b, 1) == 0)
 void cvp_lemma_first(int d, int b)
 __CPROVER_requires(GV_MACHINE_BOUND(d <= 32768))
-__CPROVER_requires(0 <= b && b < d && CVP_TAB_FOR(d, b))
+__CPROVER_requires(CVP_L_FIRST_HYP(d, b))
 __CPROVER_assigns()
-__CPROVER_ensures(CVP_OFF(d, b, 1) == 0);
+__CPROVER_ensures(CVP_L_FIRST_CONCL(d, b));
 
 /* the recurrence, and every row lies inside the buffer that ends at off(d+1) */
+#define CVP_L_STEP_HYP(d, b, r) (CVP_COV_DOM(d, b) && 1 <= (r) && (r) <= (d))
+#define CVP_L_STEP_CONCL(d, b, r)                                                                              \
+  (CVP_OFF(d, b, r) >= 0 && CVP_OFF(d, b, (r) + 1) == CVP_OFF(d, b, r) + CVP_LEN(d, b, r) &&                   \
+   CVP_OFF(d, b, (r) + 1) <= CVP_OFF(d, b, (d) + 1))
 void cvp_lemma_step(int d, int b, int r)
 __CPROVER_requires(GV_MACHINE_BOUND(d <= 32768))
-__CPROVER_requires(0 <= b && b < d && 1 <= r && r <= d && CVP_TAB_FOR(d, b))
+__CPROVER_requires(CVP_L_STEP_HYP(d, b, r))
 __CPROVER_assigns()
-__CPROVER_ensures(CVP_OFF(d, b, r) >= 0)
-__CPROVER_ensures(CVP_OFF(d, b, r + 1) == CVP_OFF(d, b, r) + CVP_LEN(d, b, r))
-__CPROVER_ensures(CVP_OFF(d, b, r + 1) <= CVP_OFF(d, b, d + 1));
+__CPROVER_ensures(CVP_L_STEP_CONCL(d, b, r));
 
 /* the table ends at a count that fits an int with room to spare (the dimension bound is a genuine hypothesis here) */
+#define CVP_L_END_HYP(d, b) ((d) <= 32768 && CVP_COV_DOM(d, b))
+#define CVP_L_END_CONCL(d, b) (1 <= CVP_OFF(d, b, (d) + 1) && CVP_OFF(d, b, (d) + 1) <= 1073741824)
 void cvp_lemma_end(int d, int b)
-__CPROVER_requires(d <= 32768)
-__CPROVER_requires(0 <= b && b < d && CVP_TAB_FOR(d, b))
+__CPROVER_requires(CVP_L_END_HYP(d, b))
 __CPROVER_assigns()
-__CPROVER_ensures(1 <= CVP_OFF(d, b, d + 1) && CVP_OFF(d, b, d + 1) <= 1073741824);
+__CPROVER_ensures(CVP_L_END_CONCL(d, b));
 
 /* ... which is the documented element count (what the constructor and reset() allocate: unit matvec_index, lemmas
-   CovMat.ctor/reset.size_is_the_documented_element_count).  Not called from CBMC checks (they state the buffer size
+   CovMat.ctor/reset.size_is_the_documented_element_count).  Not used by the CBMC checks (they state the buffer size
    as off(d+1)); it is the link between that statement and WF_COV of matvec_spec.h. */
 void cvp_lemma_size(int d, int b)
 __CPROVER_requires(GV_MACHINE_BOUND(d <= 32768))
-__CPROVER_requires(0 <= b && b < d && CVP_TAB_FOR(d, b))
+__CPROVER_requires(CVP_COV_DOM(d, b))
 __CPROVER_assigns()
 __CPROVER_ensures(CVP_OFF(d, b, d + 1) == CVP_SIZE(d, b));
 
+#define CVP_L_MONO_HYP(d, b, r1, r2) (CVP_COV_DOM(d, b) && 1 <= (r1) && (r1) <= (r2) && (r2) <= (d) + 1)
+#define CVP_L_MONO_CONCL(d, b, r1, r2)                                                                         \
+  (CVP_OFF(d, b, r1) <= CVP_OFF(d, b, r2) &&                                                                   \
+   ((r1) < (r2) ==> CVP_OFF(d, b, r1) + CVP_LEN(d, b, r1) <= CVP_OFF(d, b, r2)))
 void cvp_lemma_mono(int d, int b, int r1, int r2)
 __CPROVER_requires(GV_MACHINE_BOUND(d <= 32768))
-__CPROVER_requires(0 <= b && b < d && 1 <= r1 && r1 <= r2 && r2 <= d + 1 && CVP_TAB_FOR(d, b))
+__CPROVER_requires(CVP_L_MONO_HYP(d, b, r1, r2))
 __CPROVER_assigns()
-__CPROVER_ensures(CVP_OFF(d, b, r1) <= CVP_OFF(d, b, r2))
-__CPROVER_ensures(r1 < r2 ==> CVP_OFF(d, b, r1) + CVP_LEN(d, b, r1) <= CVP_OFF(d, b, r2));
+__CPROVER_ensures(CVP_L_MONO_CONCL(d, b, r1, r2));
 
 /* off(r) is the offset CovMat::operator[](r) computes from the stored fields band_1 = b+1 and dim_b = d-b
    (the expression MV_COV_ROWOFF of matvec_spec.h) */
+#define CVP_L_OPROW_HYP(d, b, b1, db, r) (CVP_COV_DOM(d, b) && (b1) == (b) + 1 && (db) == (d) - (b) && 1 <= (r) && (r) <= (d))
+#define CVP_L_OPROW_CONCL(d, b, b1, db, r)                                                                     \
+  (((r) - 1 <= (db) ==> CVP_OFF(d, b, r) == ((r) - 1) * (b1)) &&                                               \
+   ((r) - 1 > (db) ==> CVP_OFF(d, b, r) == ((r) - 1) * (b1) - ((r) - 1 - (db)) * ((r) - 1 - (db) + 1) / 2))
 void cvp_lemma_oprow(int d, int b, int b1, int db, int r)
 __CPROVER_requires(GV_MACHINE_BOUND(d <= 32768))
-__CPROVER_requires(0 <= b && b < d && b1 == b + 1 && db == d - b && 1 <= r && r <= d && CVP_TAB_FOR(d, b))
+__CPROVER_requires(CVP_L_OPROW_HYP(d, b, b1, db, r))
 __CPROVER_assigns()
-__CPROVER_ensures(r - 1 <= db ==> CVP_OFF(d, b, r) == (r - 1) * b1)
-__CPROVER_ensures(r - 1 > db ==> (0 <= (r - 1 - db) * (r - 1 - db + 1) &&
-                                  CVP_OFF(d, b, r) == (r - 1) * b1 - (r - 1 - db) * (r - 1 - db + 1) / 2));
+__CPROVER_ensures(CVP_L_OPROW_CONCL(d, b, b1, db, r));
 
 /* ---- SymMat(n) --------------------------------------------------------------------------------------------------- */
+#define CVP_L_TRI_FIRST_HYP(n) (0 <= (n))
+#define CVP_L_TRI_FIRST_CONCL(n) (CVP_TRI(1) == 0)
 void cvp_lemma_tri_first(int n)
-__CPROVER_requires(0 <= n)
+__CPROVER_requires(CVP_L_TRI_FIRST_HYP(n))
 __CPROVER_assigns()
-__CPROVER_ensures(CVP_TRI(1) == 0);
+__CPROVER_ensures(CVP_L_TRI_FIRST_CONCL(n));
 
+#define CVP_L_TRI_STEP_HYP(n, i) (1 <= (i) && (i) <= (n))
+#define CVP_L_TRI_STEP_CONCL(n, i) \
+  (CVP_TRI(i) >= 0 && CVP_TRI((i) + 1) == CVP_TRI(i) + (i) && CVP_TRI((i) + 1) <= CVP_TRI((n) + 1))
 void cvp_lemma_tri_step(int n, int i)
 __CPROVER_requires(GV_MACHINE_BOUND(n <= 32768))
-__CPROVER_requires(1 <= i && i <= n)
+__CPROVER_requires(CVP_L_TRI_STEP_HYP(n, i))
 __CPROVER_assigns()
-__CPROVER_ensures(CVP_TRI(i) >= 0)
-__CPROVER_ensures(CVP_TRI(i + 1) == CVP_TRI(i) + i)
-__CPROVER_ensures(CVP_TRI(i + 1) <= CVP_TRI(n + 1));
+__CPROVER_ensures(CVP_L_TRI_STEP_CONCL(n, i));
 
+#define CVP_L_TRI_END_HYP(n) ((n) <= 32768 && 1 <= (n))
+#define CVP_L_TRI_END_CONCL(n) (1 <= CVP_TRI((n) + 1) && CVP_TRI((n) + 1) <= 1073741824)
 void cvp_lemma_tri_end(int n)
-__CPROVER_requires(n <= 32768)
-__CPROVER_requires(1 <= n)
+__CPROVER_requires(CVP_L_TRI_END_HYP(n))
 __CPROVER_assigns()
-__CPROVER_ensures(1 <= CVP_TRI(n + 1) && CVP_TRI(n + 1) <= 1073741824);
+__CPROVER_ensures(CVP_L_TRI_END_CONCL(n));
 
 void cvp_lemma_tri_size(int n)
 __CPROVER_requires(GV_MACHINE_BOUND(n <= 32768))
@@ -134,19 +156,35 @@ __CPROVER_requires(0 <= n)
 __CPROVER_assigns()
 __CPROVER_ensures(CVP_TRI(n + 1) == CVP_TRISIZE(n));
 
+#define CVP_L_TRI_MONO_HYP(n, i1, i2) (1 <= (i1) && (i1) <= (i2) && (i2) <= (n) + 1)
+#define CVP_L_TRI_MONO_CONCL(n, i1, i2) \
+  (CVP_TRI(i1) <= CVP_TRI(i2) && ((i1) < (i2) ==> CVP_TRI(i1) + (i1) <= CVP_TRI(i2)))
 void cvp_lemma_tri_mono(int n, int i1, int i2)
 __CPROVER_requires(GV_MACHINE_BOUND(n <= 32768))
-__CPROVER_requires(1 <= i1 && i1 <= i2 && i2 <= n + 1)
+__CPROVER_requires(CVP_L_TRI_MONO_HYP(n, i1, i2))
 __CPROVER_assigns()
-__CPROVER_ensures(CVP_TRI(i1) <= CVP_TRI(i2))
-__CPROVER_ensures(i1 < i2 ==> CVP_TRI(i1) + i1 <= CVP_TRI(i2));
+__CPROVER_ensures(CVP_L_TRI_MONO_CONCL(n, i1, i2));
 
 /* tri(i) + j - 1 is the offset SymMat::operator()(i,j), i >= j, computes: i*(i-1)/2 + j-1 (MV_SYM_OFF of matvec_spec.h) */
+#define CVP_L_TRI_OP_HYP(n, i) (1 <= (i) && (i) <= (n) + 1)
+#define CVP_L_TRI_OP_CONCL(n, i) (CVP_TRI(i) == (i) * ((i) - 1) / 2)
 void cvp_lemma_tri_op(int n, int i)
 __CPROVER_requires(GV_MACHINE_BOUND(n <= 32768))
-__CPROVER_requires(1 <= i && i <= n + 1)
+__CPROVER_requires(CVP_L_TRI_OP_HYP(n, i))
 __CPROVER_assigns()
-__CPROVER_ensures(CVP_TRI(i) == i * (i - 1) / 2);
+__CPROVER_ensures(CVP_L_TRI_OP_CONCL(n, i));
 #pragma CPROVER check pop
+
+/* inline use (CBMC checks only; GV_INST of include/gv.h: assert the first argument, assume the second) */
+#define CVP_USE_FIRST(d, b) GV_INST((d) <= CVP_MAXD && CVP_L_FIRST_HYP(d, b), CVP_L_FIRST_CONCL(d, b))
+#define CVP_USE_STEP(d, b, r) GV_INST((d) <= CVP_MAXD && CVP_L_STEP_HYP(d, b, r), CVP_L_STEP_CONCL(d, b, r))
+#define CVP_USE_END(d, b) GV_INST(CVP_L_END_HYP(d, b), CVP_L_END_CONCL(d, b))
+#define CVP_USE_MONO(d, b, r1, r2) GV_INST((d) <= CVP_MAXD && CVP_L_MONO_HYP(d, b, r1, r2), CVP_L_MONO_CONCL(d, b, r1, r2))
+#define CVP_USE_OPROW(d, b, b1, db, r) GV_INST((d) <= CVP_MAXD && CVP_L_OPROW_HYP(d, b, b1, db, r), CVP_L_OPROW_CONCL(d, b, b1, db, r))
+#define CVP_USE_TRI_FIRST(n) GV_INST(CVP_L_TRI_FIRST_HYP(n), CVP_L_TRI_FIRST_CONCL(n))
+#define CVP_USE_TRI_STEP(n, i) GV_INST((n) <= CVP_MAXD && CVP_L_TRI_STEP_HYP(n, i), CVP_L_TRI_STEP_CONCL(n, i))
+#define CVP_USE_TRI_END(n) GV_INST(CVP_L_TRI_END_HYP(n), CVP_L_TRI_END_CONCL(n))
+#define CVP_USE_TRI_MONO(n, i1, i2) GV_INST((n) <= CVP_MAXD && CVP_L_TRI_MONO_HYP(n, i1, i2), CVP_L_TRI_MONO_CONCL(n, i1, i2))
+#define CVP_USE_TRI_OP(n, i) GV_INST((n) <= CVP_MAXD && CVP_L_TRI_OP_HYP(n, i), CVP_L_TRI_OP_CONCL(n, i))
 
 #endif
